@@ -166,8 +166,10 @@ func gDirEntries(name string) []string {
 	return out
 }
 
-func gIsDirName(name string) bool    { return strings.HasPrefix(name, "d") || strings.HasPrefix(name, "sd") }
-func gIsMissing(name string) bool    { return strings.HasPrefix(name, "missing") }
+func gIsDirName(name string) bool {
+	return strings.HasPrefix(name, "d") || strings.HasPrefix(name, "sd")
+}
+func gIsMissing(name string) bool                     { return strings.HasPrefix(name, "missing") }
 func gWriteData(name string, off int64, n int) []byte { return gContent("w!"+name, off, n) }
 
 var gOldTime = time.Unix(1_000_000_000, 0)
